@@ -12,7 +12,15 @@ import (
 
 // ElemV is the abstract value of a stream element (or anything computed from
 // elements): only its provenance is kept.
-type ElemV struct{ Deps []*Stream }
+type ElemV struct {
+	Deps []*Stream
+	// for a value computed in a loop body (nil Def and not Carried: a raw element)
+	Def     ast.Expr     // the defining right-hand side
+	Fr      *Frame       // where Def is evaluated
+	Carried bool         // depends on what an earlier iteration left behind
+	Self    types.Object // the variable itself when it is loop-carried
+	Init    Value        // its value before the loop
+}
 
 func mergeElem(vs ...Value) ElemV {
 	var r ElemV
@@ -24,6 +32,9 @@ func mergeElem(vs ...Value) ElemV {
 					seen[s] = true
 					r.Deps = append(r.Deps, s)
 				}
+			}
+			if e.Carried {
+				r.Carried = true
 			}
 		}
 	}
@@ -827,12 +838,33 @@ func (it *Interp) loopAssign(fr *Frame, x *ast.AssignStmt, cur *loopCtx) {
 			return true
 		})
 	}
-	v := Value(Opaque{Why: "loop-variant"})
+	v0 := Value(Opaque{Why: "loop-variant"})
 	if len(deps) > 0 {
-		v = mergeElem(deps...)
+		v0 = mergeElem(deps...)
 	}
-	for _, l := range x.Lhs {
+	for li, l := range x.Lhs {
+		v := v0
 		if id, ok := l.(*ast.Ident); ok && id.Name != "_" {
+			if ev, ok := v.(ElemV); ok {
+				if len(x.Lhs) == len(x.Rhs) && (x.Tok == token.DEFINE || x.Tok == token.ASSIGN) {
+					ev.Def, ev.Fr = x.Rhs[li], fr
+				}
+				if x.Tok != token.DEFINE || fr.Info.Defs[id] == nil {
+					// assigned, not declared, here: earlier statements of the body see the previous iteration's value
+					ev.Carried = true
+					if obj := fr.Info.Uses[id]; obj != nil {
+						ev.Self = obj
+						if c := fr.Env.Lookup(obj); c != nil {
+							if old, isElem := c.V.(ElemV); isElem {
+								ev.Init = old.Init
+							} else {
+								ev.Init = c.V
+							}
+						}
+					}
+				}
+				v = ev
+			}
 			if x.Tok == token.DEFINE {
 				if obj := fr.Info.Defs[id]; obj != nil {
 					fr.Env.Define(obj, v)
